@@ -359,7 +359,7 @@ func cmdCheck(args []string) int {
 			"slowest_instances":        slowest(all, 12),
 			"back_ends":                []string{"z3-new 5.1.0", "cvc5 1.0", "z3 4.8.12 (raced per obligation)"},
 			"contract_files":           p.specs.Files,
-			"vacuity": fmt.Sprintf("%d mustfail canaries (clauses that are false on purpose), none discharged; precondition covers: %d satisfiable, %d undecided within the cover budget (1 s quick, 20 s thorough), %d contradictory (a contradictory one is an engine error); return-path covers: %d reachable, %d undecided, %d unreachable under the contract (listed by path in the run's output); no function has all its returns unreachable; every name in obligations.lock was generated",
+			"vacuity": fmt.Sprintf("%d mustfail canaries (clauses that are false on purpose), none discharged; precondition covers: %d satisfiable, %d undecided within the cover budget (1 s quick, 20 s thorough), %d contradictory (a contradictory one is reported as a violation); return-path covers: %d reachable, %d undecided, %d unreachable under the contract (listed by path in the run's output); no function has all its returns unreachable; every name in obligations.lock was generated",
 				nCanary, coverStat["cover-requires:sat"], coverStat["cover-requires:unknown"], coverStat["cover-requires:unsat"], coverStat["cover-return:sat"], coverStat["cover-return:unknown"], coverStat["cover-return:unsat"]),
 			"extraction": "SSA built by x/tools from /repo's working tree on this run (tags: verif); nothing hand-transcribed",
 		},
